@@ -2,6 +2,8 @@ package model
 
 import (
 	"strings"
+
+	"luasim/ir"
 )
 
 // Coroutine is a model coroutine. It runs on its own goroutine with strict
@@ -648,6 +650,43 @@ func (m *Machine) installPrelude() {
 		t.Set(arg(args, 1), arg(args, 2))
 		return []Value{t}
 	})
+	// debug.getupvalue / debug.setupvalue, for closures that mention exactly one variable of an enclosing function
+	m.bind("dgetup", func(m *Machine, args []Value) []Value {
+		m.step()
+		cl, ok := arg(args, 0).(*Closure)
+		n, _ := arg(args, 1).(float64)
+		if _, isB := arg(args, 0).(*Builtin); isB {
+			return []Value{nil}
+		}
+		if !ok {
+			m.rtError("bad argument #1 to getupvalue (function expected)")
+		}
+		name, c := soleUpvalue(cl)
+		if n != 1 {
+			return []Value{nil}
+		}
+		return []Value{name, c.V}
+	})
+	m.bind("dsetup", func(m *Machine, args []Value) []Value {
+		m.step()
+		cl, ok := arg(args, 0).(*Closure)
+		n, _ := arg(args, 1).(float64)
+		if _, isB := arg(args, 0).(*Builtin); isB {
+			return []Value{nil}
+		}
+		if !ok {
+			m.rtError("bad argument #1 to setupvalue (function expected)")
+		}
+		if len(args) < 3 {
+			panic("model: debug.setupvalue without a value is outside SimLua")
+		}
+		name, c := soleUpvalue(cl)
+		if n != 1 {
+			return []Value{nil}
+		}
+		c.V = args[2]
+		return []Value{name}
+	})
 	ipairsIter := &Builtin{Name: "ipairs_iter"}
 	ipairsIter.Fn = func(m *Machine, args []Value) []Value {
 		t, ok := arg(args, 0).(*Table)
@@ -669,4 +708,57 @@ func (m *Machine) installPrelude() {
 		}
 		return []Value{ipairsIter, t, float64(0)}
 	})
+}
+
+// soleUpvalue finds the one variable of an enclosing function that the body of cl mentions. Only the statement and
+// expression forms the generator uses for such closures are understood.
+func soleUpvalue(cl *Closure) (string, *Cell) {
+	own := map[string]bool{}
+	for _, p := range cl.Def.Params {
+		own[p] = true
+	}
+	var names []string
+	var walk func(e ir.Expr)
+	walk = func(e ir.Expr) {
+		switch x := e.(type) {
+		case ir.Var:
+			if !own[x.Name] && cl.Env.lookup(x.Name) != nil {
+				for _, n := range names {
+					if n == x.Name {
+						return
+					}
+				}
+				names = append(names, x.Name)
+			}
+		case ir.Bin:
+			walk(x.L)
+			walk(x.R)
+		case ir.Un:
+			walk(x.X)
+		case ir.Nil, ir.True, ir.False, ir.Num, ir.Str:
+		default:
+			panic("model: upvalue analysis of this expression is outside SimLua")
+		}
+	}
+	for _, s := range cl.Def.Body {
+		switch x := s.(type) {
+		case *ir.Assign:
+			for _, e := range x.Exprs {
+				walk(e)
+			}
+			for _, t := range x.Targets {
+				walk(t)
+			}
+		case *ir.Return:
+			for _, e := range x.Exprs {
+				walk(e)
+			}
+		default:
+			panic("model: upvalue analysis of this statement is outside SimLua")
+		}
+	}
+	if len(names) != 1 {
+		panic("model: debug upvalue access needs a closure with exactly one upvalue")
+	}
+	return names[0], cl.Env.lookup(names[0])
 }
